@@ -109,6 +109,9 @@ func build(ns []int, pat string, withMeta bool) ([]byte, [][]expectEv) {
 			if tr == 0 && tempoLayout == 0 {
 				t.Add(0, smf.MetaTempo(90))
 			}
+			if tr == 0 && tempoLayout == 3 {
+				t.Add(0, smf.MetaTempo(240))
+			}
 		}
 		for i := 0; i < n; i++ {
 			if withMeta && i%4 == 2 {
@@ -133,7 +136,15 @@ func build(ns []int, pat string, withMeta bool) ([]byte, [][]expectEv) {
 				if tr == 0 && i == 4 {
 					// layout 0: second of two changes; 1: the only change, faster
 					// than the default; 2: the only change, slower
-					t.Add(0, smf.MetaTempo([]float64{200, 200, 47}[tempoLayout]))
+					t.Add(0, smf.MetaTempo([]float64{200, 200, 47, 50}[tempoLayout]))
+				}
+				if tr == 1 && i == 1 && tempoLayout == 3 {
+					// layout 3: tempo events in two tracks - track 0 is fast from the
+					// start and slows down late; track 1 slows the song down to that
+					// same tempo earlier (a tick of its own, so that no two different
+					// tempi share a tick)
+					tick += 3
+					t.Add(3, smf.MetaTempo(50))
 				}
 			}
 		}
@@ -259,7 +270,12 @@ func playVariant(data []byte, expAll [][]expectEv, ns []int, pat string, withMet
 		for _, p := range ports {
 			p.cost = 60 * time.Millisecond
 		}
-		engine.Catch(func() { tr.MultiPlay(outs) })
+		// the first playback uses another map: track 0 only, no default port
+		first := map[int]drivers.Out{0: ports["A"]}
+		if len(ns)%2 == 0 {
+			first = outs
+		}
+		engine.Catch(func() { tr.MultiPlay(first) })
 		l.evs = nil
 		vtime.Reset()
 	}
@@ -453,10 +469,18 @@ func space(job int) {
 		for _, r := range rest {
 			ns := append([]int{n0}, r...)
 			for _, pat := range patNames {
-				for pi, wm := range []bool{false, true, true} {
+				for pi, wm := range []bool{false, true, true, true} {
+					if pi == 3 {
+						if ntr != 2 {
+							continue
+						}
+						tempoLayout = 3
+					}
 					// third round: a single tempo change after the start (faster or
 					// slower than the default tempo), files of one or two tracks
-					tempoLayout = 0
+					if pi < 3 {
+						tempoLayout = 0
+					}
 					if pi == 2 {
 						if ntr > 2 {
 							continue
